@@ -33,6 +33,8 @@ struct Case<'a> {
     ks: &'a [i64],
     /// build the matcher from this (reused) builder instead of a fresh one made from `tb`
     builder: Option<&'a bio::pattern_matching::myers::MyersBuilder>,
+    /// treat the matcher as a value in the middle of the run (Debug, clone, clone_from, two orders)
+    values: bool,
 }
 
 thread_local! {
@@ -62,6 +64,150 @@ fn groups(m: usize, texts: &[Vec<u8>], limit: usize) -> Vec<Vec<usize>> {
     out
 }
 
+fn make(c: &Case) -> Mx {
+    match c.builder {
+        Some(b) => build_from(b, c.long_impl, c.w, c.p),
+        None => build(c.long_impl, c.w, c.p, c.tb),
+    }
+}
+
+thread_local! {
+    /// rotates the way the text is handed over (slice iterator / filter / flat_map / take_while)
+    static VIA_COUNTER: std::cell::Cell<u64> = std::cell::Cell::new(0);
+}
+fn next_via() -> u64 {
+    VIA_COUNTER.with(|c| {
+        c.set(c.get() + 1);
+        c.get()
+    })
+}
+
+/// find_all_end for every k, distance, best_end of one text on one object (`on` says which
+/// object of the run answers: the original, its clone, or the clone_from target)
+fn events_for_text(log: &mut Log, mx: &Mx, c: &Case, t: &[u8], ti: usize, on: &str) -> bool {
+    let mut nontrivial = false;
+    for &k in c.ks {
+        if !c.long_impl && !(0..=255).contains(&k) {
+            continue;
+        }
+        let via = next_via();
+        let r = log.call("find_all_end", json!({"ti": ti, "k": k, "on": on, "via": VIA[(via % 4) as usize]}), || {
+            on_myers!(
+                mx,
+                m,
+                {
+                    let v: Vec<(usize, u8)> = m.find_all_end(text_iter(t, via), k as u8).collect();
+                    json!({ "v": hits_json(&v) })
+                },
+                {
+                    let v: Vec<(usize, usize)> = m.find_all_end(text_iter(t, via), k_usize(k)).collect();
+                    json!({"v": Value::Array(v.iter().map(|&(e, d)| json!([num(e), num(d)])).collect())})
+                }
+            )
+        });
+        if let Some(v) = r.get("v").and_then(|v| v.as_array()) {
+            if !v.is_empty() && v.len() < t.len() {
+                nontrivial = true;
+            }
+        }
+    }
+    if !t.is_empty() {
+        // the minimum over all end positions needs at least one end position
+        let via = next_via();
+        log.call("distance", json!({ "ti": ti, "on": on, "via": if via % 5 == 4 { "owned_items" } else { VIA[(via % 4) as usize] } }), || {
+            if via % 5 == 4 {
+                on_myers!(mx, m, json!({"d": m.distance(t.iter().cloned()) as i64}), json!({"d": num(m.distance(t.iter().cloned()))}))
+            } else {
+                on_myers!(mx, m, json!({"d": m.distance(text_iter(t, via)) as i64}), json!({"d": num(m.distance(text_iter(t, via)))}))
+            }
+        });
+        let via = next_via();
+        log.call("best_end", json!({ "ti": ti, "on": on, "via": VIA[(via % 4) as usize] }), || {
+            on_myers!(
+                mx,
+                m,
+                {
+                    let (e, d) = m.find_best_end(text_iter(t, via));
+                    json!({"v": [num(e), d as i64]})
+                },
+                {
+                    let (e, d) = m.find_best_end(text_iter(t, via));
+                    json!({"v": [num(e), num(d)]})
+                }
+            )
+        });
+    }
+    nontrivial
+}
+
+/// the result iterator of find_all_end as a value: forked (clone) after j items, consumed
+/// through count / last / nth / skip / step_by, size_hint after n items
+fn iterator_events(log: &mut Log, mx: &Mx, c: &Case, t: &[u8], ti: usize, sel: u64) {
+    let k = c.ks[c.ks.len() / 2];
+    if !c.long_impl && !(0..=255).contains(&k) {
+        return;
+    }
+    let j = (sel % 3) as usize;
+    let via = next_via();
+    log.call("find_all_end_fork", json!({"ti": ti, "k": k, "j": j, "via": VIA[(via % 2) as usize]}), || {
+        fn keep(_: &&u8) -> bool {
+            true
+        }
+        macro_rules! fork {
+            ($m:expr, $kk:expr) => {{
+                if via % 2 == 0 {
+                    fork!($m, $kk, t.iter())
+                } else {
+                    fork!($m, $kk, t.iter().filter(keep as fn(&&u8) -> bool))
+                }
+            }};
+            ($m:expr, $kk:expr, $text:expr) => {{
+                let mut it = $m.find_all_end($text, $kk);
+                let mut head = vec![];
+                for _ in 0..j {
+                    match it.next() {
+                        Some((e, d)) => head.push(json!([num(e), num(d as usize)])),
+                        None => break,
+                    }
+                }
+                let it2 = it.clone();
+                let t1: Vec<Value> = it.map(|(e, d)| json!([num(e), num(d as usize)])).collect();
+                let t2: Vec<Value> = it2.map(|(e, d)| json!([num(e), num(d as usize)])).collect();
+                json!({"head": head, "tail1": t1, "tail2": t2})
+            }};
+        }
+        on_myers!(mx, m, fork!(m, k as u8), fork!(m, k_usize(k)))
+    });
+    log.oblige("iterator_forked_after_j_items");
+    let how = HOWS[(sel % 6) as usize];
+    let n = 1 + (sel / 6 % 3) as usize;
+    let via = next_via();
+    log.call("find_all_end_via", json!({"ti": ti, "k": k, "how": how, "n": n, "via": VIA[(via % 4) as usize]}), || {
+        macro_rules! consume {
+            ($m:expr, $kk:expr) => {{
+                let mut it = $m.find_all_end(text_iter(t, via), $kk);
+                let item = |(e, d)| json!([num(e), num(d as usize)]);
+                match how {
+                    "count" => json!({"v": [it.count()]}),
+                    "last" => json!({"v": it.last().map(item).into_iter().collect::<Vec<Value>>()}),
+                    "nth" => json!({"v": it.nth(n).map(item).into_iter().collect::<Vec<Value>>()}),
+                    "skip" => json!({"v": it.skip(n).map(item).collect::<Vec<Value>>()}),
+                    "step_by" => json!({"v": it.step_by(n).map(item).collect::<Vec<Value>>()}),
+                    _ => {
+                        for _ in 0..n {
+                            it.next();
+                        }
+                        let (lo, hi) = it.size_hint();
+                        json!({"v": [num(lo), hi.map(|h| num(h)).unwrap_or(-1)]})
+                    }
+                }
+            }};
+        }
+        on_myers!(mx, m, consume!(m, k as u8), consume!(m, k_usize(k)))
+    });
+    log.oblige(&format!("iterator_consumed_via_{}", how));
+}
+
 fn run_one(log: &mut Log, tag: &str, c: &Case) {
     let mut mx: Option<Mx> = None;
     let mut built = false;
@@ -80,18 +226,12 @@ fn run_one(log: &mut Log, tag: &str, c: &Case) {
             built = true;
             if active {
                 log.call("new", json!({}), || {
-                    mx = Some(match c.builder {
-                        Some(b) => build_from(b, c.long_impl, c.w, c.p),
-                        None => build(c.long_impl, c.w, c.p, c.tb),
-                    });
+                    mx = Some(make(c));
                     json!({})
                 });
             } else {
                 // run skipped after a restart: the object is still needed for the later parts
-                mx = std::panic::catch_unwind(|| match c.builder {
-                        Some(b) => build_from(b, c.long_impl, c.w, c.p),
-                        None => build(c.long_impl, c.w, c.p, c.tb),
-                    }).ok();
+                mx = std::panic::catch_unwind(|| make(c)).ok();
             }
         }
         let mx = match &mx {
@@ -108,56 +248,49 @@ fn run_one(log: &mut Log, tag: &str, c: &Case) {
         }
         let mut nontrivial = false; // some threshold selected a proper, non-empty subset of the end positions
         for (ti0, &gi) in grp.iter().enumerate() {
-            let t = &c.texts[gi];
-            let ti = ti0 + 1;
-            for &k in c.ks {
-                if !c.long_impl && !(0..=255).contains(&k) {
-                    continue;
-                }
-                let r = log.call("find_all_end", json!({"ti": ti, "k": k}), || {
-                    on_myers!(
-                        mx,
-                        m,
-                        {
-                            let v: Vec<(usize, u8)> = m.find_all_end(t.iter(), k as u8).collect();
-                            json!({ "v": hits_json(&v) })
-                        },
-                        {
-                            let v: Vec<(usize, usize)> = m.find_all_end(t.iter(), k_usize(k)).collect();
-                            json!({"v": Value::Array(v.iter().map(|&(e, d)| json!([num(e), num(d)])).collect())})
-                        }
-                    )
-                });
-                if let Some(v) = r.get("v").and_then(|v| v.as_array()) {
-                    if !v.is_empty() && v.len() < t.len() {
-                        nontrivial = true;
-                    }
-                }
+            nontrivial |= events_for_text(log, mx, c, &c.texts[gi], ti0 + 1, "original");
+        }
+        if !grp.is_empty() && !c.ks.is_empty() {
+            let sel = next_via() + part as u64;
+            let pick = (sel as usize) % grp.len();
+            iterator_events(log, mx, c, &c.texts[grp[pick]], pick + 1, sel);
+        }
+        if c.values {
+            // the matcher as a value: Debug, clone(), clone_from() into a used object of another
+            // pattern (left over from an earlier run); then the same searches again in reverse
+            // order, answered in turn by the copies and by the original
+            log.call("debug", json!({}), || json!({"len": mx.debug_len()}));
+            let mut copy: Option<Mx> = None;
+            log.call("clone", json!({}), || {
+                copy = Some(mx.clone());
+                json!({})
+            });
+            let mut target = attic_take(mx.variant());
+            if let Some(tg) = target.as_mut() {
+                log.call("clone_from", json!({"target_debug_len_before": tg.debug_len()}), || json!({"same_variant": tg.clone_from_same(mx)}));
+                log.oblige("clone_from_into_used_object");
             }
-            if !t.is_empty() {
-                // the minimum over all end positions needs at least one end position
-                log.call("distance", json!({ "ti": ti }), || {
-                    on_myers!(mx, m, json!({"d": m.distance(t.iter()) as i64}), json!({"d": num(m.distance(t.iter()))}))
-                });
-                log.call("best_end", json!({ "ti": ti }), || {
-                    on_myers!(
-                        mx,
-                        m,
-                        {
-                            let (e, d) = m.find_best_end(t.iter());
-                            json!({"v": [num(e), d as i64]})
-                        },
-                        {
-                            let (e, d) = m.find_best_end(t.iter());
-                            json!({"v": [num(e), num(d)]})
-                        }
-                    )
-                });
+            for (n, (ti0, &gi)) in grp.iter().enumerate().rev().enumerate() {
+                let (obj, on): (&Mx, &str) = match (n % 3, &copy, &target) {
+                    (0, Some(cp), _) => (cp, "clone"),
+                    (1, _, Some(tg)) => (tg, "clone_from_target"),
+                    _ => (mx, "original"),
+                };
+                events_for_text(log, obj, c, &c.texts[gi], ti0 + 1, on);
+            }
+            log.oblige("object_cloned_mid_history_both_continue");
+            log.oblige("same_searches_two_orders");
+            if let Some(cp) = copy {
+                attic_put(cp); // a used object for a later clone_from
             }
         }
         if nontrivial {
             log.oblige("nontrivial");
         }
+    }
+    // the used object stays behind as a possible clone_from target of a later run
+    if let Some(m) = mx {
+        attic_put(m);
     }
 }
 
@@ -225,7 +358,7 @@ pub fn drive(log: &mut Log) {
                 continue;
             }
             let ks: Vec<i64> = (0..=(p.len() as i64 + 1)).collect();
-            run_one(log, "ex", &Case { long_impl, w: 8, p, tb: &none, texts: &texts, ks: &ks, builder: None });
+            run_one(log, "ex", &Case { long_impl, w: 8, p, tb: &none, texts: &texts, ks: &ks, builder: None, values: false });
             log.oblige("exhaustive_small");
         }
     }
@@ -277,7 +410,7 @@ pub fn drive(log: &mut Log) {
                 log.oblige("k_ge_m");
                 log.oblige("k_255");
                 log.oblige("empty_text");
-                run_one(log, "sw", &Case { long_impl: false, w, p: &p, tb: &tb, texts: &texts, ks: &ks, builder: None });
+                run_one(log, "sw", &Case { long_impl: false, w, p: &p, tb: &tb, texts: &texts, ks: &ks, builder: None, values: false });
             }
         }
     }
@@ -342,7 +475,7 @@ pub fn drive(log: &mut Log) {
             if !tb.is_empty() {
                 log.oblige("long_tables");
             }
-            run_one(log, "lg", &Case { long_impl: true, w, p: &p, tb: &tb, texts: &texts, ks: &ks, builder: None });
+            run_one(log, "lg", &Case { long_impl: true, w, p: &p, tb: &tb, texts: &texts, ks: &ks, builder: None, values: false });
         }
     }
 
@@ -383,7 +516,7 @@ pub fn drive(log: &mut Log) {
             texts.push(t);
         }
         log.oblige("long_unary_run_to_block_boundary");
-        run_one(log, "ur", &Case { long_impl: true, w, p: &p, tb: &none, texts: &texts, ks: &[0, 1, 2], builder: None });
+        run_one(log, "ur", &Case { long_impl: true, w, p: &p, tb: &none, texts: &texts, ks: &[0, 1, 2], builder: None, values: false });
     }
 
     // (e) block-based version: the edit budget is used up exactly at a block seam (see
@@ -413,7 +546,7 @@ pub fn drive(log: &mut Log) {
                             let texts = vec![t];
                             let ki = k as i64;
                             log.oblige("long_budget_exhausted_at_seam");
-                            run_one(log, "sb", &Case { long_impl: true, w, p: &p, tb: &none, texts: &texts, ks: &[ki - 1, ki, ki + 1], builder: None });
+                            run_one(log, "sb", &Case { long_impl: true, w, p: &p, tb: &none, texts: &texts, ks: &[ki - 1, ki, ki + 1], builder: None, values: false });
                         }
                     }
                 }
@@ -438,7 +571,7 @@ pub fn drive(log: &mut Log) {
         PROFILE.with(|cell| *cell.borrow_mut() = Some((wt.k, wt.profile.clone())));
         let texts = vec![wt.t.clone()];
         let ks: Vec<i64> = if wt.k > 0 { vec![wt.k - 1, wt.k, wt.k + 1] } else { vec![wt.k, wt.k + 1] };
-        run_one(log, "gs", &Case { long_impl: true, w: wt.w, p: &wt.p, tb: &none, texts: &texts, ks: &ks, builder: None });
+        run_one(log, "gs", &Case { long_impl: true, w: wt.w, p: &wt.p, tb: &none, texts: &texts, ks: &ks, builder: None, values: false });
     }
 
     // (g) block-based matcher built by MyersBuilder: a text wildcard swept over every position
@@ -468,7 +601,7 @@ pub fn drive(log: &mut Log) {
                 texts.push(t);
             }
             log.oblige("long_wildcard_swept_over_block_seams");
-            run_one(log, "ws", &Case { long_impl: true, w, p: &p, tb: &tb, texts: &texts, ks: &[0, 1], builder: None });
+            run_one(log, "ws", &Case { long_impl: true, w, p: &p, tb: &tb, texts: &texts, ks: &[0, 1], builder: None, values: false });
             if variant == 0 {
                 // N on the first row of every block (and next to the seams)
                 let mut p2 = p.clone();
@@ -486,7 +619,7 @@ pub fn drive(log: &mut Log) {
                     texts2.push(t);
                 }
                 log.oblige("long_ambig_on_block_first_rows");
-                run_one(log, "ws", &Case { long_impl: true, w, p: &p2, tb: &tb, texts: &texts2, ks: &[0, 1], builder: None });
+                run_one(log, "ws", &Case { long_impl: true, w, p: &p2, tb: &tb, texts: &texts2, ks: &[0, 1], builder: None, values: false });
             }
         }
     }
@@ -513,7 +646,63 @@ pub fn drive(log: &mut Log) {
                 log.oblige("builder_reused_with_redefinition");
             }
             let calls = h.calls.clone();
-            run_one(log, "bh", &Case { long_impl, w, p: &p, tb: &calls, texts: &texts, ks: &[0, 1, 2], builder: Some(&h.builder) });
+            run_one(log, "bh", &Case { long_impl, w, p: &p, tb: &calls, texts: &texts, ks: &[0, 1, 2], builder: Some(&h.builder), values: false });
+            if stage == 1 {
+                // the builder as a value: a clone and a serde_json round trip of it go their own way
+                // (the clone skips the narrowing stage, the round trip repeats the first stage) while
+                // the original continues; matchers built from all three
+                let mut c1 = h.fork_clone();
+                builder_stage(&mut c1, 3);
+                let calls1 = c1.calls.clone();
+                run_one(log, "bh", &Case { long_impl, w, p: &p, tb: &calls1, texts: &texts, ks: &[0, 1], builder: Some(&c1.builder), values: false });
+                log.oblige("builder_cloned_mid_history");
+                let mut c2 = h.fork_serde();
+                builder_stage(&mut c2, 0);
+                let calls2 = c2.calls.clone();
+                run_one(log, "bh", &Case { long_impl, w, p: &p, tb: &calls2, texts: &texts, ks: &[0, 1], builder: Some(&c2.builder), values: false });
+                log.oblige("builder_serde_roundtrip_mid_history");
+            }
+        }
+    }
+
+    // (i) matcher objects as values, every word type of both implementations: after the first
+    //     pass over the texts the object is formatted (Debug), cloned, and clone_from()-ed into
+    //     a used object of another pattern left over from an earlier run; the texts are then
+    //     searched again in reverse order, answered in turn by the clone, the clone_from target
+    //     and the original. Once per process: long::Myers::default().
+    let nov = log.opts.n(3, 12);
+    let mut first = true;
+    for &long_impl in &[false, true] {
+        for &w in &[8usize, 16, 32, 64] {
+            for variant in 0..nov {
+                case += 1;
+                if !log.mine(case) {
+                    continue;
+                }
+                let mut rng = Rng::new(seed, 18, case);
+                let m = if long_impl { w + 1 + rng.below(w as u64) as usize } else { 1 + rng.below(w as u64) as usize }.min(40);
+                let alpha: &[u8] = if variant % 2 == 0 { b"ACGT" } else { b"ACGTN" };
+                let tb = make_tables(&mut rng, variant % 3, b"ACGTN");
+                let p = rng.seq(m, alpha);
+                let mut texts = vec![];
+                for _ in 0..4 {
+                    let n = (m + 5 + rng.below(25) as usize).min(60);
+                    texts.push(planted(&mut rng, &p, n, alpha, b"ACGTN*", 2));
+                }
+                let mi = m as i64;
+                run_one(log, "ov", &Case { long_impl, w, p: &p, tb: &tb, texts: &texts, ks: &[0, 1, (mi / 4).max(2)], builder: None, values: true });
+                if first {
+                    first = false;
+                    if log.begin("ov", json!({"impl": "long", "w": 8, "p": [], "ambig": [], "wild": [], "part": 0, "texts": [bytes(&texts[0])]})) {
+                        log.call("default_long", json!({"ti": 1, "k": 1}), || {
+                            let d = bio::pattern_matching::myers::long::Myers::<u8>::default();
+                            let v: Vec<(usize, usize)> = d.find_all_end(texts[0].iter(), 1).collect();
+                            json!({"v": Value::Array(v.iter().map(|&(e, d)| json!([num(e), num(d)])).collect())})
+                        });
+                        log.oblige("default_object_exercised");
+                    }
+                }
+            }
         }
     }
     let _ = case;
